@@ -63,6 +63,7 @@ NearestMatch(c, e) ==
 (* C17: one FindPotentialMatches result *)
 RangesOK(e) ==
   /\ e.panic = ""
+  /\ e.textok                                                      \* token offsets of both search sets index their strings
   /\ \A i \in 1..Len(e.cands) : LET mr == e.cands[i] IN
         /\ Len(mr) > 0
         \* the statement bounds the TARGET side only (merged ranges may extend SrcEnd behind the source: not demanded)
